@@ -309,6 +309,189 @@ def gen_wrap_nested(ctx, n):
     return out
 
 
+# ---------------------------------------------------------------- numbering / fields inside nested braces (repair 86fc68a)
+def shapes_nested(segs, N):
+    """Where a payload with items may stand; the expected text of copy i of n comes from text_gen.expect_nested."""
+    T = g.render_nested(segs)
+
+    def e(i, n):
+        v = g.expect_nested(segs, i, n)
+        return ['T', v] if v else ''
+
+    def a(i, n):
+        return g.attr_value_form(g.expect_nested(segs, i, n))
+    one = e(None, None)
+    return [
+        ('nested:text', 'p{%s}' % T, ['<p>', one, '</p>']),
+        # (a text WITH a tabstop field and children is a snippet: the formatter writes the children in place of the first
+        # field, upstream's pushSnippet -- C04_children_after_text is stated for field-free values; model comparison only)
+        ('nested:text+children', 'p{%s}>b+i' % T, ['<p>', one, '<b></b><i></i></p>'] if not any(s[0] == 'field' for s in segs) else None),
+        ('nested:child-text', 'div>{%s}' % T, ['<div>', one, '</div>']),
+        ('nested:text-after-attrs', 'p.c[a=b]{%s}' % T, ['<p class="c" a="b">', one, '</p>']),
+        ('nested:text-repeated', 'p{%s}*%d' % (T, N), sum([['<p>', e(i, N), '</p>'] for i in range(1, N + 1)], [])),
+        ('nested:li-repeated', 'ul>li{%s}*%d' % (T, N), ['<ul>'] + sum([['<li>', e(i, N), '</li>'] for i in range(1, N + 1)], []) + ['</ul>']),
+        ('nested:group-repeated', '(p{%s}+i)*%d' % (T, N), sum([['<p>', e(i, N), '</p><i></i>'] for i in range(1, N + 1)], [])),
+        ('nested:parent-repeated', 'div*%d>p{%s}' % (N, T), sum([['<div><p>', e(i, N), '</p></div>'] for i in range(1, N + 1)], [])),
+        ('nested:inner-counter', 'ul*2>li{%s}*%d' % (T, N),
+         (['<ul>'] + sum([['<li>', e(i, N), '</li>'] for i in range(1, N + 1)], []) + ['</ul>']) * 2),
+        ('nested:attr-expression', 'p[t={%s}]' % T, ['<p t={' + a(None, None) + '}></p>']),
+        ('nested:attr-expression-repeated', 'p[t={%s}]*%d' % (T, N), ['<p t={' + a(i, N) + '}></p>' for i in range(1, N + 1)]),
+    ]
+
+
+NESTED_FIXED = [
+    # the inputs named in the record of the repair, and every item kind at depths 0..3 between literal text
+    [('lit', '{'), ('num', 1, False, False, ''), ('lit', '}')],
+    [('lit', 'a{'), ('num', 1, False, False, ''), ('lit', '}b')],
+    [('lit', '{'), ('ph',), ('lit', '}')],
+    [('lit', '{'), ('field', '1', None), ('lit', '}')],
+    [('lit', 'a{'), ('num', 1, False, False, ''), ('lit', '}b{{'), ('num', 2, True, True, ''), ('lit', '}c}'), ('field', '1', 'x{y}')],
+]
+
+
+def gen_nested(ctx, n):
+    rng = ctx.rng
+    out = []
+    fixed = list(NESTED_FIXED)
+    items = [('num', 1, False, False, ''), ('num', 3, False, False, ''), ('num', 2, True, False, '5'), ('num', 1, True, True, ''),
+             ('num', 2, True, True, '12'), ('num', 1, True, False, '0'), ('ph',), ('field', '0', None), ('field', '12', 'p{q}r'),
+             ('field', '3', '')]
+    for d in range(0, 4):
+        for it in items:
+            for pre, post in (('', ''), ('a', 'b'), (' ', ' '), ('\\$', '\\}')):
+                fixed.append([('lit', '{' * d + pre), it, ('lit', (post if post else ('.' if it[0] == 'num' and not d else '')) + '}' * d)])
+            # two items in a row at that depth
+            fixed.append([('lit', '{' * d), it, ('lit', ' '), ('ph',), ('num', 1, True, False, ''), ('lit', '}' * d)])
+    for segs in fixed:
+        segs = [s for s in segs if not (s[0] == 'lit' and s[1] == '')]
+        assert g.in_domain_nested(segs), segs
+        for kind, abbr, pieces in shapes_nested(segs, 2):
+            out.append(case(kind, abbr, pieces, segs=segs, N=2))
+    for _ in range(n):
+        segs = g.payload_nested(rng, rng.choice([1, 1, 2, 2, 3, 4, 6]), fields=True)
+        assert g.in_domain_nested(segs), segs
+        N = rng.choice([1, 2, 2, 3, 4, 11])
+        kind, abbr, pieces = rng.choice(shapes_nested(segs, N))
+        out.append(case(kind, abbr, pieces, segs=segs, N=N))
+        ctx.nontrivial(abbr)
+    for _, _, meta in out:
+        prof = g.nested_depth_profile([tuple(s) for s in meta['segs']])
+        for k, d in prof:
+            ctx.cover('nested:%s@depth%d' % (k, min(d, 4)))
+        if any(d >= 1 for _, d in prof):
+            ctx.cover('nested:item-inside-inner-braces')
+    return out
+
+
+def nested_front_end(ctx, cases):
+    """Statement-level oracle on the FRONT END for `p{P}` / `p{P}*N` (what C04_tokenize_nested, C04_nested_closing_brace,
+    C04_parse_nested, C04_text_nested, C04_nested_repeated say): the tokens are name, `{`, the payload's tokens in order,
+    `}` -- the closing Bracket is the LAST token of `p{P}` and spans the last character --, and the abbreviation tree is
+    one node per copy whose value is the payload's value under that copy's counter."""
+    from emmet.abbreviation.tokenizer import tokenize
+
+    def canon(t):
+        ty = type(t).__name__
+        if ty in ('Literal', 'WhiteSpace'):
+            return (ty, t.value)
+        if ty == 'RepeaterNumber':
+            return (ty, t.size, bool(t.reverse), t.base, t.parent)
+        if ty == 'RepeaterPlaceholder':
+            return (ty,)
+        if ty == 'Field':
+            return (ty, t.name, t.index)
+        if ty == 'Bracket':
+            return (ty, bool(t.open), t.context)
+        return (ty,)
+    n = 0
+    for abbr, cfg, meta in cases:
+        if meta.get('kind') in ('nested:attr-expression', 'nested:attr-expression-repeated'):
+            # C04_attr_expr_nested / _repeated: one node per copy, ONE attribute t of type expression whose value is the payload
+            segs = [tuple(s) for s in meta['segs']]
+            N = meta['N'] if meta['kind'].endswith('repeated') else None
+            n += 1
+            ctx.count_eval()
+            t = text_tree.impl_tree(abbr, None, None)
+
+            def attr(i):
+                return [['t', g.expect_nested_value(segs, i, N) or [], 3, False, False, False]]
+            if N is None:
+                want_t = [['p', None, None, attr(None), False, []]]
+            else:
+                want_t = [['p', None, [N, i - 1, False], attr(i), False, []] for i in range(1, N + 1)]
+            if t[0] != 'ok' or to_lists(t[1]) != want_t:
+                bad = 'abbreviation tree %r, the statement gives %r' % (t, want_t)
+                ctx.property_failure('C04nested:%s' % abbr, 'C04 front end on %r: %s' % (abbr, bad),
+                                     {'component': 'C04-nested', 'abbr': abbr, 'segs': meta['segs'], 'N': N, 'attr': True, 'why': bad})
+            continue
+        if meta.get('kind') not in ('nested:text', 'nested:text-repeated'):
+            continue
+        segs = [tuple(s) for s in meta['segs']]
+        N = meta['N'] if meta['kind'] == 'nested:text-repeated' else None
+        n += 1
+        ctx.count_eval()
+        bad = None
+        try:
+            toks = tokenize(abbr)
+        except Exception as e:  # noqa
+            toks = None
+            bad = 'tokenize raised %r' % (e,)
+        if toks is not None:
+            want = [('Literal', 'p'), ('Bracket', True, 'expression')] + g.expect_nested_tokens(segs) + [('Bracket', False, 'expression')]
+            got = [canon(t) for t in toks]
+            body_end = len(abbr) if N is None else abbr.rindex('*')
+            if N is not None:
+                got_rep = got[-1]
+                got = got[:-1]
+                toks = toks[:-1]
+                if got_rep[0] != 'Repeater':
+                    bad = 'last token of %r is %r, not the repeater' % (abbr, got_rep)
+            if not bad and got != want:
+                bad = 'tokens %r, the statement gives %r' % (got[:20], want[:20])
+            elif not bad and (toks[-1].start, toks[-1].end) != (body_end - 1, body_end):
+                bad = 'the closing brace token spans %r, the last brace of the text is at %d' % ((toks[-1].start, toks[-1].end), body_end - 1)
+        if not bad:
+            t = text_tree.impl_tree(abbr, None, None)
+            if N is None:
+                want_t = [['p', g.expect_nested_value(segs), None, None, False, []]]
+            else:
+                want_t = [['p', g.expect_nested_value(segs, i, N), [N, i - 1, False], None, False, []] for i in range(1, N + 1)]
+            if t[0] != 'ok' or to_lists(t[1]) != want_t:
+                bad = 'abbreviation tree %r, the statement gives %r' % (t, want_t)
+        if bad:
+            ctx.property_failure('C04nested:%s' % abbr, 'C04 front end on %r: %s' % (abbr, bad),
+                                 {'component': 'C04-nested', 'abbr': abbr, 'segs': meta['segs'], 'N': N, 'why': bad})
+    ctx.cov['nested_front_end_cases'] = n
+
+
+def to_lists(x):
+    if isinstance(x, (tuple, list)):
+        return [to_lists(y) for y in x]
+    return x
+
+
+def replay_nested(rp):
+    import random
+
+    class C:
+        violations = []
+        cov = {}
+
+        def count_eval(self):
+            pass
+
+        def property_failure(self, key, what, replay):
+            self.violations.append(what)
+    c = C()
+    segs = rp['segs']
+    kind = 'nested:text-repeated' if rp.get('N') else 'nested:text'
+    if rp.get('attr'):
+        kind = 'nested:attr-expression-repeated' if rp.get('N') else 'nested:attr-expression'
+    nested_front_end(c, [(rp['abbr'], plain(), {'kind': kind, 'segs': segs, 'N': rp.get('N')})])
+    print('front end on %r: %s' % (rp['abbr'], c.violations[0] if c.violations else 'property holds'))
+    return 1 if c.violations else 0
+
+
 def gen_outside(ctx, n):
     """Inputs outside the statement's domain (unbalanced braces, unescaped `$`, `$#` without or outside the
     implicit repeater, several implicit repeaters, text given as one multi-line / padded string together with an
@@ -597,7 +780,12 @@ def run(ctx):
         'compared model vs implementation only; non-trivial = non-empty '
         'payload / at least one non-blank line; distinct by (abbreviation, lines). Oracle: the output predicted from the payload by '
         'the statement (unescape; per-line placement) must equal emmet.expand under a configuration that adds nothing between tags. '
-        'Outside-domain inputs are compared model vs implementation only.')
+        'Outside-domain inputs are compared model vs implementation only. (nested:*) payloads in which literal runs alternate with `$` '
+        'counters (every width / @ / @- / start value), `$#` and ${n} / ${n:placeholder} fields standing at brace depths 0..5 of '
+        'balanced inner braces (text_gen.payload_nested; every item kind at depths 0..3 swept), as element text alone, repeated, '
+        'under a repeated parent / group, and as an {expression} attribute value; oracle: output text = the payload with escapes '
+        'resolved, inner braces kept, every counter replaced by its value in copy i of N (1 outside repeaters); plus the front-end '
+        'oracle (tokens in order, closing brace = last character, abbreviation tree per copy).')
     quick = ctx.tier == 'quick'
     cases = gen_corpus(ctx)
     cases += gen_exhaustive(ctx)
@@ -607,6 +795,8 @@ def run(ctx):
     cases += gen_wrap_nested(ctx, 800 if quick else 12000)
     cases += gen_wrap_alias(ctx, 900 if quick else 20000)
     cases += gen_outside(ctx, 1500 if quick else 30000)
+    nested = gen_nested(ctx, 1200 if quick else 12000)
+    cases += nested
     inplace_text_sequences(ctx)
     for _, _, meta in cases:
         ctx.cover('kind:' + meta['kind'])
@@ -640,6 +830,8 @@ def run(ctx):
     # 3. the abbreviation tree itself (tokenize + parse + convert: what C04_text_literal, C04_wrap_* speak about):
     # implementation vs extracted parse_abbr on every case, plus the tree-level oracle for plain text elements
     tree_tie(ctx, cases)
+    # 3b. payloads with counters / `$#` / fields inside nested braces: tokens, closing brace and tree against the statement
+    nested_front_end(ctx, nested)
     # 4. attribute positions at tree level (C04_attr_value_literal, C04_group_bracket_attr): `name[n<value>]` for every
     # value form over the whole alphabets of the theorem; oracle = the written value against emmet.abbreviation.parse
     atg.run_stream(ctx, 'C04', 0, 0, 1500 if quick else 40000, kinds={'value', 'textelem'}, n_textelem=700 if quick else 20000)
@@ -707,6 +899,8 @@ def replay(ctx, obj):
         return 1 if bad else 0
     if rp.get('component') == 'text-tree':
         return atg.replay(rp)
+    if rp.get('component') == 'C04-nested':
+        return replay_nested(rp)
     if rp.get('component') == 'C04expand':
         return atg.replay_expand(rp)
     if rp.get('component') == 'C04href':
